@@ -20,7 +20,8 @@ fn seal_at(layer: Layer, p: P, key: &KeyMat, rng: &mut Rng, msg: &str, footer: O
     match layer {
         Layer::Core => core_seal(p, key, &rng.bytes(32), msg, footer, ia).0,
         Layer::Generic => {
-            let ops = vec![ClaimOp::Set(Claim::Custom("data".into(), json!("bound"))), ClaimOp::Set(Claim::Exp("2999-01-01T00:00:00+00:00".into()))];
+            // "{}" = a generic builder without any claim
+            let ops = if msg == "{}" { vec![] } else { vec![ClaimOp::Set(Claim::Custom("data".into(), json!("bound"))), ClaimOp::Set(Claim::Exp("2999-01-01T00:00:00+00:00".into()))] };
             generic_seal(p, key, &ops, footer, ia).0
         }
         Layer::Batteries => {
@@ -450,6 +451,58 @@ fn with_key_bytes(p: P, k: &KeyMat, b: Vec<u8>) -> KeyMat {
     k2
 }
 
+fn pae(pieces: &[&[u8]]) -> Vec<u8> {
+    let mut v = (pieces.len() as u64).to_le_bytes().to_vec();
+    for x in pieces {
+        v.extend_from_slice(&(x.len() as u64).to_le_bytes());
+        v.extend_from_slice(x);
+    }
+    v
+}
+
+/// ECDSA has "duplicate signature" keys: for a signature (r, s) over a digest e there are (up to) four public keys
+/// Q = r^-1 (sR - eG) under which it verifies — the signer's and others unrelated to it.  PASETO v3.public rules them out
+/// by signing the public key itself.  This computes those keys from the token's OWN signature, over the digest the
+/// specification prescribes and over the digests a binding-free variant would use; every one of them that is not the
+/// producing key must be refused (C04).  Such a key is one specific 49-byte value per token: no random key finds it.
+fn v3p_recovered_keys(token: &str, footer: Option<&str>, ia: Option<&str>, pk: &[u8]) -> Vec<(Vec<u8>, String)> {
+    use ecdsa::RecoveryId;
+    use p384::ecdsa::{Signature, VerifyingKey};
+    use sha2::{Digest, Sha384};
+    let mut out = Vec::new();
+    let parts = match crate::c03::parts(P::V3P, token) {
+        Some(x) if x.payload.len() >= 96 => x,
+        _ => return out,
+    };
+    let (m, sig) = parts.payload.split_at(parts.payload.len() - 96);
+    let sig = match Signature::from_slice(sig) {
+        Ok(s) => s,
+        Err(_) => return out,
+    };
+    let h: &[u8] = b"v3.public.";
+    let f = footer.unwrap_or("").as_bytes();
+    let i = ia.unwrap_or("").as_bytes();
+    let variants: Vec<(&str, Vec<u8>)> = vec![
+        ("spec-digest", pae(&[pk, h, m, f, i])),
+        ("digest-without-pk", pae(&[h, m, f, i])),
+        ("digest-without-pk-and-assertion", pae(&[h, m, f])),
+        ("digest-header+message", pae(&[h, m])),
+        ("digest-pk-last", pae(&[h, m, f, i, pk])),
+        ("digest-raw-message", m.to_vec()),
+    ];
+    for (name, pre) in variants {
+        let d = Sha384::digest(&pre);
+        for rid in 0u8..4 {
+            if let Some(id) = RecoveryId::from_byte(rid) {
+                if let Ok(vk) = VerifyingKey::recover_from_prehash(&d, &sig, id) {
+                    out.push((vk.to_encoded_point(true).as_bytes().to_vec(), format!("ecdsa-key-recovered-from-signature({})", name)));
+                }
+            }
+        }
+    }
+    out
+}
+
 fn c04_eval(c: &C04Case, r: &mut Report) {
     r.evaluations += 1;
     let tag = format!("{}/{}", c.p.name(), c.layer.name());
@@ -503,7 +556,10 @@ pub fn run_c04(tier: &str, seed: u64) -> Report {
         let key = pools.key(p, b % pools.count(p));
         let footer = [None, Some("ftr"), Some("")][b % 3];
         let ia = if p.has_assertion() { [None, Some("ia")][b % 2] } else { None };
-        let msg = if layer == Layer::Core { ["", JSON_MSG, "x", "plain text message", JSON_MSG, ""][b % 6] } else { JSON_MSG };
+        // short messages: with an unauthenticated decryption a wrong key yields garbage that is still well-formed with
+        // noticeable probability only when the plaintext is a few bytes long (b >= 6: "{}" at the generic layer)
+        let msg = if layer == Layer::Core { ["", JSON_MSG, "x", "plain text message", JSON_MSG, "", "7", "{}", "ab"][b % 9] } else if layer == Layer::Generic && b >= 6 && b % 2 == 0 { "{}" } else { JSON_MSG };
+        let short = msg.len() <= 2;
         let token = match seal_at(layer, p, &key, &mut rng, msg, footer, ia) {
             Out::Ok(t) => t,
             o => {
@@ -527,8 +583,15 @@ pub fn run_c04(tier: &str, seed: u64) -> Report {
         }
         alts.push((vec![0u8; kb.len()], "all-zero".into()));
         alts.push((vec![0xffu8; kb.len()], "all-one".into()));
-        for _ in 0..50 {
+        for _ in 0..(if short && p.is_local() { 1500 } else { 50 }) {
             alts.push((rng.bytes(kb.len()), "random-bytes".into()));
+        }
+        if p == P::V3P {
+            let rec = v3p_recovered_keys(&token, footer, ia, &kb);
+            if rec.iter().any(|(k, _)| *k == kb) {
+                r.count("v3.public signer's key is among the keys recovered from the signature (recovery works)");
+            }
+            alts.extend(rec);
         }
         for j in 0..pools.count(p) {
             let ob = key_bytes(p, &pools.key(p, j));
@@ -577,6 +640,7 @@ pub fn run_c04(tier: &str, seed: u64) -> Report {
         total.require(&format!("{}/generic session parses as expected", p.name()), 7);
         total.require(&format!("{}/batteries session parses as expected", p.name()), 7);
     }
+    total.require("v3.public signer's key is among the keys recovered from the signature (recovery works)", 10);
     total
 }
 
@@ -595,7 +659,7 @@ pub fn replay_c04(case: &Value) -> Report {
     r
 }
 
-pub const RULE_C04: &str = "per protocol 24 (thorough 1500) authentic tokens built at core/generic/batteries layer (footer none/text/empty, assertion none/text) are presented at the same layer under every single-bit neighbour of the key (all 256 bits of symmetric and Ed25519 public keys, all 392 bits of the compressed P-384 point, all bits of the RSA public-key DER), all-zero, all-one, 50 random, rotated/reversed/half-zeroed keys and every other pool key; parser sessions incl. LONG ones (one parser object, 3000 (thorough 20000) parses of right-key / other-key / one-character-changed tokens in a seeded order); oracle: any Ok under another key is a violation (a key that fails to parse counts as 'fails'); distinct_nontrivial = distinct (protocol, layer, key class, rejection variant)";
+pub const RULE_C04: &str = "per protocol 24 (thorough 1500) authentic tokens built at core/generic/batteries layer (footer none/text/empty, assertion none/text) are presented at the same layer under every single-bit neighbour of the key (all 256 bits of symmetric and Ed25519 public keys, all 392 bits of the compressed P-384 point, all bits of the RSA public-key DER), all-zero, all-one, 50 random (1500 for local tokens whose plaintext is 0-2 bytes, incl. the claim-less '{}' of the generic builder: garbage from an unauthenticated decryption is well-formed only when short), rotated/reversed/half-zeroed keys, every other pool key, and for v3.public the ECDSA 'duplicate-signature' keys recovered from the token's own signature over the specified digest and over five binding-free digest variants (the signer's key must be the only recovered key that is accepted); parser sessions incl. LONG ones (one parser object, 3000 (thorough 20000) parses of right-key / other-key / one-character-changed tokens in a seeded order); oracle: any Ok under another key is a violation (a key that fails to parse counts as 'fails'); distinct_nontrivial = distinct (protocol, layer, key class, rejection variant)";
 
 // ==========================================================================================
 // C05
@@ -1014,17 +1078,21 @@ pub fn run_c06(tier: &str, seed: u64) -> Report {
                     Out::Ok(t) => t,
                     _ => continue,
                 };
-                let mut f2: Vec<u8> = f0.as_bytes().to_vec();
-                f2.extend_from_slice(&(a_long.len() as u64).to_le_bytes());
-                f2.extend_from_slice(&a_long[..shift - 8]);
-                let (f2s, a2s) = match (String::from_utf8(f2.clone()), String::from_utf8(a_long[shift..].to_vec())) {
-                    (Ok(x), Ok(y)) => (x, y),
-                    _ => continue,
-                };
-                let segs: Vec<&str> = tokl.split('.').collect();
-                let tok2 = format!("{}.{}.{}.{}", segs[0], segs[1], segs[2], util::b64(&f2));
-                let c = C06Case { p, layer: Layer::Core, key: key.clone(), footer: Some(f0.into()), supplied_footer: Some(f2s), built_ia: Some(a_str.clone()), supplied_ia: Some(a2s), token: tok2, class: "length-prefix-re-split".into() };
-                c06_eval(&c, &mut r);
+                // the length field of A that the new footer has to reproduce is whatever the implementation wrote: the true
+                // LE64(|A|), or - if lengths n and n+shift share an encoding - the one of |A| - shift
+                for a_len_field in [a_long.len() as u64, (a_long.len() - shift) as u64] {
+                    let mut f2: Vec<u8> = f0.as_bytes().to_vec();
+                    f2.extend_from_slice(&a_len_field.to_le_bytes());
+                    f2.extend_from_slice(&a_long[..shift - 8]);
+                    let (f2s, a2s) = match (String::from_utf8(f2.clone()), String::from_utf8(a_long[shift..].to_vec())) {
+                        (Ok(x), Ok(y)) => (x, y),
+                        _ => continue,
+                    };
+                    let segs: Vec<&str> = tokl.split('.').collect();
+                    let tok2 = format!("{}.{}.{}.{}", segs[0], segs[1], segs[2], util::b64(&f2));
+                    let c = C06Case { p, layer: Layer::Core, key: key.clone(), footer: Some(f0.into()), supplied_footer: Some(f2s), built_ia: Some(a_str.clone()), supplied_ia: Some(a2s), token: tok2, class: "length-prefix-re-split".into() };
+                    c06_eval(&c, &mut r);
+                }
             }
             // re-split attack: (F, A) -> (F', A') with F||A == F'||A'
             let f_txt = "footer-part";
@@ -1083,7 +1151,7 @@ pub fn replay_c06(case: &Value) -> Report {
     r
 }
 
-pub const RULE_C06: &str = "v3/v4 local/public x 3 layers x assertion catalogue (none, empty, 40 strings with near-miss pairs): a token is built with assertion A through that layer's builder and presented to that layer's parser with every A' of the catalogue; oracle: accept iff A' == A (none == empty). Plus: the assertion supplied as footer instead; for 60 (thorough 400) random assertions of >= 12 base64-alphabet characters per protocol with a FIXED nonce: token length equal for none / A / A', A (raw and base64url at the three byte alignments) absent from the token text and decoded payload, nonce||ciphertext identical across assertions (local), tokens differ across assertions; re-split attack (F,A)->(F',A') with F||A == F'||A' at six split points. distinct_nontrivial = distinct (protocol, layer, class, built class, supplied class)";
+pub const RULE_C06: &str = "v3/v4 local/public x 3 layers x assertion catalogue (none, empty, 40 strings with near-miss pairs): a token is built with assertion A through that layer's builder and presented to that layer's parser with every A' of the catalogue; oracle: accept iff A' == A (none == empty). Plus: the assertion supplied as footer instead; for 60 (thorough 400) random assertions of >= 12 base64-alphabet characters per protocol with a FIXED nonce: token length equal for none / A / A', A (raw and base64url at the three byte alignments) absent from the token text and decoded payload, nonce||ciphertext identical across assertions (local), tokens differ across assertions; re-split attack (F,A)->(F',A') with F||A == F'||A' at six split points, and across a LENGTH PREFIX (F' = F || len(A) || A[..d-8], A' = A[d..] with A[d-8..d] = LE64(|A'|), d in {128, 256, 32768, 65536}, len(A) written as LE64(|A|) and as LE64(|A|-d): collides iff the PAE length encoding is not injective). distinct_nontrivial = distinct (protocol, layer, class, built class, supplied class)";
 
 // ==========================================================================================
 // C07
